@@ -105,6 +105,18 @@ func (d *drv) dispatch(i int) {
 		if b == nil {
 			rec.Fatal("verify-block queue empty after HandleVerifyBlockMessage")
 		}
+		// processVerifyBlock starts a goroutine that links the proposal to the local previous block
+		// (updatePreviousBlockNotarization -> GetPreviousBlock) and goes on without waiting for it. For a proposal
+		// of a later round the harness makes the order of the two deterministic: it keeps that round's mutex
+		// for a moment (as another goroutine of the node could), so that the handler waits at its first look at
+		// the round (AddToRoundVerification -> IsFinalizing) while the goroutine has linked the previous block.
+		if mr := mc.GetMinerRound(b.Round); mr != nil && b.Round > mc.GetCurrentRound() {
+			release := mr.Round.VerifRTHoldMutex()
+			go func() {
+				time.Sleep(25 * time.Millisecond)
+				release()
+			}()
+		}
 		cctx, cancel := context.WithTimeout(ctx, 10*time.Second)
 		err := mc.VerifProcessVerifyBlock(cctx, b)
 		cancel()
@@ -133,7 +145,27 @@ func (d *drv) dispatch(i int) {
 	if _, ok := ev["wqueued"]; !ok {
 		ev["wqueued"] = true
 	}
-	d.emit(ev, fmt.Sprintf("%v", p.desc["kind"]), true)
+	shape := fmt.Sprintf("%v", p.desc["kind"])
+	if bu, ok := p.desc["bu"].([]rec.M); ok && len(bu) > 0 {
+		switch bu[0]["variant"].(int) {
+		case 7:
+			shape += "/next-round-forged-prev-tickets"
+		case 8:
+			shape += "/next-round-node-lags"
+		case 9:
+			shape += "/bad-signature"
+		case 0:
+		default:
+			shape += "/generator-proposes-again"
+		}
+	}
+	if p.desc["dup"] == true {
+		shape += "/again"
+	}
+	if p.desc["valid"] == false {
+		shape += "/invalid"
+	}
+	d.emit(ev, shape, true)
 }
 
 // ---------------------------------------------------------------- messages of the simulated miners
